@@ -64,6 +64,16 @@ func Spec(id, tier string) *core.CheckSpec {
 			{Engine: "chainsim", Label: "swarm", Seconds: sec(50, 700), Opt: core.Options{}},
 			{Engine: "chainsim", Label: "late-forks", Seconds: sec(30, 400), Opt: core.Options{Params: p("forks", "late")}},
 		}
+		if id == "C02" || id == "C01" {
+			cs.Batches[0].Seconds = sec(35, 500)
+			cs.Batches[1].Seconds = sec(20, 300)
+			cs.Batches = append(cs.Batches,
+				core.Batch{Engine: "chainsim", Label: "director-leak", Seconds: sec(20, 300), Opt: core.Options{Params: p("director", "leak")}},
+				core.Batch{Engine: "chainsim", Label: "director-churn", Seconds: sec(20, 300), Opt: core.Options{Params: p("director", "churn")}})
+		}
+		if !q && id != "C13" {
+			cs.Batches = append(cs.Batches, core.Batch{Engine: "chainsim", Label: "mainnet-preset", Seconds: 240, Opt: core.Options{Params: p("preset", "mainnet")}})
+		}
 	default:
 		return nil
 	}
